@@ -13,7 +13,7 @@ FLOAT = {"t": "Opaque", "extension": "arithmetic.float.types", "id": "float64", 
 TEST_OPS = {
     "H": ([Q], [Q]), "CX": ([Q, Q], [Q, Q]), "Measure": ([Q], [Q, BOOL]), "Rz": ([Q, FLOAT], [Q]),
     "Fan3": ([BOOL], [BOOL, BOOL, BOOL]), "Nop0": ([], []), "Swap": ([BOOL, Q], [Q, BOOL]),
-    "QAlloc": ([], [Q]), "QFree": ([Q], []),
+    "QAlloc": ([], [Q]), "QFree": ([Q], []), "CCX": ([Q, Q, Q], [Q, Q, Q]),
 }
 
 
